@@ -286,6 +286,8 @@ type nodeRT struct {
 	// batch nodes: per-run bookkeeping (item index by payload identity; attempts so far)
 	battempts map[[2]int]int // (visit,item) -> attempts so far
 	itemTok   map[int][]int  // visit -> token of each item
+	// a cancellation scripted for this visit's prep that is delivered when flyt.Run reads the node's own retry getters
+	pendingCancel bool
 }
 
 // ---- overlapping runs of the same node objects ----
@@ -404,7 +406,16 @@ func (l *leafImpl) prep(shared *flyt.SharedStore) (any, error) {
 	e.maybePanic("p")
 	o := parseOutVal(e.leafScript(rt.id, v).Prep)
 	if o.cancels {
-		e.cancelNow()
+		ownGetters := l.cfg.Retryable && l.cfg.PrepS == "direct" && l.cfg.ExecS == "direct" && l.cfg.PostS == "direct" &&
+			(l.cfg.Fb == "absent" || (l.cfg.Fb == "custom" && l.cfg.Impl == "plain"))
+		if o.ok && ownGetters && (rt.id+v)%2 == 0 {
+			// a node kind with its own getters (plainRetry / plainRetryFb): cancel when flyt.Run reads the retry settings
+			rt.mu.Lock()
+			rt.pendingCancel = true
+			rt.mu.Unlock()
+		} else {
+			e.cancelNow()
+		}
 	}
 	if !o.ok {
 		return o.val, userError(o.errN)
@@ -529,7 +540,20 @@ func (n *plainNode) Post(ctx context.Context, s *flyt.SharedStore, p, e any) (fl
 // plainRetry: Node + RetryableNode
 type plainRetry struct{ plainNode }
 
-func (n *plainRetry) GetMaxRetries() int     { return n.l.cfg.Budget }
+// the node's OWN getters: flyt.Run reads them between prep and the first exec attempt. A cancellation scripted for a
+// successful prep of such a node is, every second time, delivered HERE instead of inside prep (`pendingCancel`): to the run
+// it is a cancellation before the first attempt either way.
+func (n *plainRetry) GetMaxRetries() int {
+	rt := n.l.rtx()
+	rt.mu.Lock()
+	p := rt.pendingCancel
+	rt.pendingCancel = false
+	rt.mu.Unlock()
+	if p {
+		rt.env.cancelNow()
+	}
+	return n.l.cfg.Budget
+}
 func (n *plainRetry) GetWait() time.Duration { return time.Duration(n.l.cfg.Wait) * time.Millisecond }
 
 // plainFb: Node + FallbackNode
